@@ -283,6 +283,12 @@ func c7Wrappers(c *Ctx) {
 		}
 		recv, fields := fn.Params[0], fn.Params[1]
 		st := named.Underlying().(*types.Struct)
+		// the wrapped core: the wrapper's field of type zapcore.Core, whatever it is called (embedded or named)
+		for i := 0; i < st.NumFields(); i++ {
+			if TypeName(st.Field(i).Type()) == "zapcore.Core" {
+				w.coreField = st.Field(i).Name()
+			}
+		}
 		got := BuiltFields(fn, named)
 		var missing, wrong []string
 		for i := 0; i < st.NumFields(); i++ {
